@@ -380,7 +380,7 @@ def _rederived_per_task(prog: Program, cq: str, attr: str, hook: str | None, fac
         return "unknown", f"{hook}() stores a value of unrecognised kind into self.{attr}: {short(val, 90)}"
     # ---- H4: the factory seeds that stream per env
     if factory is None:
-        return "no", "the env factory is not a method whose body is known"
+        return "unknown", "the env factory is not a method whose body can be resolved"
     fq, fmeth = factory
     fmethods = prog.methods(fq)
     if fmeth not in fmethods:
@@ -451,6 +451,14 @@ def rule_c12_rng(prog: Program, col: Collector) -> None:
                 return []
         return []
 
+    def owners_of(t: Term, meth: str, ref: FuncRef) -> list[str]:
+        """Classes of the receiver of a bound method: by construction / annotation, else the unique class of the package defining ``meth``."""
+        got = solver_classes_of(t, ref)
+        if got:
+            return got
+        cands = sorted({f"{r.module.name}.{r.cls.name}" for r in prog.all_functions() if r.cls is not None and r.node.name == meth})
+        return cands if len(cands) == 1 else []
+
     nsites = 0
     for ref, ft, e, bound in callers:
         procs = bound.get("processes")
@@ -481,7 +489,7 @@ def rule_c12_rng(prog: Program, col: Collector) -> None:
                     if hook is not None and obj[0] == "call" and sum(1 for c in ft.calls() if c.term == obj) != 1:
                         hook = None          # two constructions of equal shape are two objects: terms carry no identity, call events do
                     fac = bound.get("env_generator")
-                    fcls = solver_classes_of(fac[1], ref) if fac is not None and fac[0] == "attr" else []
+                    fcls = owners_of(fac[1], fac[2], ref) if fac is not None and fac[0] == "attr" else []
                     status, why = _rederived_per_task(prog, cq, attr, hook, (fcls[0], fac[2]) if len(fcls) == 1 else None)
                     for mname in hit:
                         for dev, what in draws[mname]:
@@ -503,7 +511,10 @@ def rule_c12_rng(prog: Program, col: Collector) -> None:
         v = bound.get("env_generator")
         if v is not None and v[0] == "attr":
             obj, meth = v[1], v[2]
-            for cq in solver_classes_of(obj, ref):
+            owners = owners_of(obj, meth, ref)
+            if not owners:
+                col.undecidable(ref.where(e.node), ref.short, f"the class of the env factory {short(v, 50)} cannot be resolved", rule="Q3")
+            for cq in owners:
                 nsites += _check_env_factory(prog, col, cq, meth, rng_attrs, NEC_SHARED, ref)
     # ---- custom pickling of objects that travel to the workers
     hooks = ("__reduce__", "__reduce_ex__", "__getstate__", "__setstate__", "__getnewargs__", "__getnewargs_ex__", "__copy__", "__deepcopy__")
